@@ -321,9 +321,11 @@ func (p *Proxy) handleConnectRequest(ctx *Context, req *http.Request, session *S
 
 		if err := res.Write(brw); err != nil {
 			log.Errorf("martian: got error while writing response back to client: %v", err)
+			return errClose
 		}
 		if err := brw.Flush(); err != nil {
 			log.Errorf("martian: got error while flushing response back to client: %v", err)
+			return errClose
 		}
 
 		log.Debugf("martian: completed MITM for connection: %s", req.Host)
@@ -387,12 +389,13 @@ func (p *Proxy) handleConnectRequest(ctx *Context, req *http.Request, session *S
 
 		if err := res.Write(brw); err != nil {
 			log.Errorf("martian: got error while writing response back to client: %v", err)
+			return errClose
 		}
-		err := brw.Flush()
-		if err != nil {
+		if err := brw.Flush(); err != nil {
 			log.Errorf("martian: got error while flushing response back to client: %v", err)
+			return errClose
 		}
-		return err
+		return nil
 	}
 	defer res.Body.Close()
 	defer cconn.Close()
